@@ -380,6 +380,38 @@ impl<'a> Gen<'a> {
 }
 
 /// one well-formed document (root any type; containers favoured)
+fn wide(g: &mut Gen) {
+    let n = *g.r.pick(&[255usize, 256, 257, 300, 520, 700]);
+    let object = g.r.chance(1, 2);
+    let flavour = g.r.below(4);
+    g.out.push(if object { b'{' } else { b'[' });
+    for i in 0..n {
+        if i > 0 {
+            g.out.push(b',');
+            if g.r.chance(1, 8) {
+                g.out.push(b' ');
+            }
+        }
+        if object {
+            g.out.extend_from_slice(format!("\"k{}\":", i).as_bytes());
+        }
+        let t: &[u8] = match flavour {
+            0 => b"[]",
+            1 => b"{}",
+            2 => *g.r.pick(&[&b"[]"[..], b"{}", b"[[]]", b"{\"a\":{}}", b"[{}]"]),
+            _ => *g.r.pick(&[&b"[]"[..], b"{}", b"0", b"null", b"\"\"", b"true", b"-1.5", b"\"s\""]),
+        };
+        g.out.extend_from_slice(t);
+    }
+    // something to enter after all of them
+    g.out.push(b',');
+    if object {
+        g.out.extend_from_slice(b"\"last\":");
+    }
+    g.out.extend_from_slice(b"{\"in\":[1,[2,{\"x\":\"y\"}]]}");
+    g.out.push(if object { b'}' } else { b']' });
+}
+
 pub fn gen_doc(r: &mut Rng, o: &DocOpts) -> Vec<u8> {
     let mut g = Gen::new(r, o.clone());
     let lead = g.o.ws;
@@ -391,7 +423,11 @@ pub fn gen_doc(r: &mut Rng, o: &DocOpts) -> Vec<u8> {
     } else {
         g.ws();
     }
-    if g.r.chance(5, 6) && g.o.max_depth > 0 {
+    if g.o.max_depth > 0 && g.r.chance(1, 96) {
+        // a WIDE container: hundreds of tiny members (empty containers, literals, short scalars),
+        // more than any per-call counter of nesting or members may silently accumulate
+        wide(&mut g);
+    } else if g.r.chance(5, 6) && g.o.max_depth > 0 {
         if g.r.chance(1, 2) {
             g.array(1)
         } else {
